@@ -27,18 +27,22 @@ TRUSTED = [
     "sidecar_dir_dict[dir] modelled as the sub-list of sidecar_dict lying in dir",
     "str.lower() modelled for ASCII only (generated names are ASCII plus caseless white space); Base/Str.v isspace "
     "table compared with CPython for every code point used by the generators",
-    "the sidecar and tabular validators are parameters of the model (properties C07/C08); top-level JSON values "
-    "that are not objects are not generated",
+    "the sidecar and tabular validators are parameters of the model (properties C07/C08); a JSON document that is "
+    "not an object is refused like unparseable JSON (HedFileError)",
 ]
 ASSUMPTIONS = [
     "the theorems quantify over all directory trees, all file names and all sidecar contents of the model; the "
     "at-most-one-applicable-sidecar-per-directory hypothesis is the property's own",
-    "C16_merged_is_fold is refuted for the current code (C16-F1); C16_merged_partial holds when every sidecar of the "
-    "chain has its entities among those of the deepest one",
+    "VERIF_C16_FIXED=1 (default): the tree under test has the fix: commit for C16-F1; C16_merged_is_fold and "
+    "C16_dataset_issues are proved in full for the repaired constructor; the C16_before_fix_* theorems record the "
+    "repaired defect (VERIF_C16_FIXED=0 checks an unpatched tree against that model and accepts the C16-F1 class)",
     "issue equality and the CLI exit status are checked on the implementation (testing) against per-file validation "
     "with the specification's merged sidecar; in the model they are structural",
 ]
 
+# 1 = the tree under test has the fix: commit for C16-F1 (data file gets the merge of ITS OWN chain): the repaired
+# model is used and the oracle demands the full statement; 0 = the constructor before that commit.
+FIXED = int(os.environ.get("VERIF_C16_FIXED", "1"))
 EXCLUDED_NAMES = ["sourcedata", "derivatives", "code", "stimuli", "phenotype"]
 COLS = ["a", "b", "c", "trial_type"]
 DESC = {"Name": "verif", "BIDSVersion": "1.8.0", "HEDVersion": "8.3.0"}
@@ -175,13 +179,15 @@ def impl_one(case):
                 r["issues"] = [canon_issue(i) for i in ds.validate(check_for_warnings=cfw)]
             except Exception as e:  # noqa
                 r["issues_exn"] = type(e).__name__ + ":" + str(e)[:100]
-            # the statement's right-hand side with (a) the implementation's own chains of the sidecars' files and
-            # (b) chains supplied by the caller (spec / model) are computed in a second pass: see expect_one
         r["cli"] = run_cli(root, cfw, sub=want_sub)[0]
-        # expectations for the issue list: computed here because the files are on disk now
+        # the statement's right-hand side (computed here because the files are on disk now):
+        #  "spec":  per-file validation with the specification's chains (supplied by the caller);
+        #  "model": per-file validation along the chains the implementation reported, combined the way the
+        #           model's constructor combines them (FIXED: the file's own chain; before the fix: the own chain
+        #           of the deepest sidecar) -- the chains themselves are compared with the model separately
         exp = {}
-        for key in ("spec", "model"):
-            ch = case.get("chains_" + key)
+        chains = {"spec": case.get("chains_spec"), "model": chains_of(r, case.get("fixed", FIXED)) if ds is not None else None}
+        for key, ch in chains.items():
             if ch is not None:
                 try:
                     exp[key] = validate_separately(root, ch[0], ch[1], cfw)
@@ -286,7 +292,7 @@ def oracle(case_pub, r, spec, res, stats=None):
     has_finding = False
     if spec is None:
         return False
-    unloadable = any(f["merged"] == "unloadable" for f in spec["sidecars"] + spec["data"])
+    unloadable = any("json" not in f["content"] or not isinstance(f["content"]["json"], dict) for f in spec["sidecars"])
     if "exn" in r:
         if not unloadable:
             res.report("constructor-raises", case_pub, r["exn"])
@@ -330,7 +336,7 @@ def oracle(case_pub, r, spec, res, stats=None):
             if got_m != want_m:
                 bad = finding_class(f)
                 fid = None
-                if bad is not None and kind == "data" and got_m == {k: dump_val(v) for k, v in bad.items()}:
+                if not FIXED and bad is not None and kind == "data" and got_m == {k: dump_val(v) for k, v in bad.items()}:
                     fid = "C16-F1"
                     has_finding = True
                 res.report("merged", case_pub, f"{x['dir']}/{x['name']}: impl={got_m} spec={want_m}", fid=fid)
@@ -384,7 +390,7 @@ def model_input(r, tree, excl, suffix="events"):
                 cont = "N"
             fl.append([C.cps(n), cont])
         return [fl, [[C.cps(n), conv(t["dirs"][n], d + [n])] for n in dirs]]
-    sx = C.to_sx([[C.cps(e) for e in excl], C.cps(suffix), conv(tree, [])])
+    sx = C.to_sx([str(1 if FIXED else 0), [C.cps(e) for e in excl], C.cps(suffix), conv(tree, [])])
     return sx, {v: k for k, v in kid.items()}, {v: k for k, v in vid.items()}
 
 
@@ -406,15 +412,16 @@ def decode_model(m, kname, vname):
             "isf": [[int(b) for b in row] for row in m[3]]}
 
 
-def chains_of(desc):
+def chains_of(desc, fixed):
     return ([(x["dir"], x["name"], x["chain"] or [[x["dir"], x["name"]]]) for x in desc["sidecars"]],
-            [(x["dir"], x["name"], chain_for_data(desc, x)) for x in desc["data"]])
+            [(x["dir"], x["name"], chain_for_data(desc, x, fixed)) for x in desc["data"]])
 
 
-def chain_for_data(desc, x):
-    """Model: the data file is validated with the contents of the LAST sidecar of its chain (that sidecar's own chain)."""
-    if not x["chain"]:
-        return []
+def chain_for_data(desc, x, fixed):
+    """Repaired constructor: the data file is validated with the merge of its own chain.  Before the fix: with
+    the contents of the LAST sidecar of its chain (that sidecar's own chain)."""
+    if not x["chain"] or fixed:
+        return x["chain"]
     last = x["chain"][-1]
     for s in desc["sidecars"]:
         if [s["dir"], s["name"]] == last:
@@ -558,7 +565,8 @@ def gen_tree(rng, malformed=False, finding_bias=0.5):
         count += 1
         tgt["files"][nm] = tsv(rng) if nm.endswith(".tsv") else jcontent(rng, f"m{count}")
         if rng.random() < 0.15:
-            tgt["files"][ent_name(ents[:1])] = {"text": "{not json"}
+            tgt["files"][ent_name(ents[:1])] = rng.choice([{"text": "{not json"}, {"json": [1, 2]}, {"json": "text"},
+                                                           {"json": None}, {"json": 5}])
     return tree
 
 
@@ -636,53 +644,40 @@ def check_isspace(res):
 
 
 def evaluate(trees, res, model_ok, rng, n_sub=2):
-    """Two passes over the implementation: pass 1 observes; pass 2 (same tree rebuilt) computes the
-    statement's right-hand side with the spec's and the model's chains."""
+    """One pass over the implementation per tree: observe, and compute the statement's right-hand side with the
+    specification's chains (computed beforehand, independently) and with the reported chains."""
     base = C.scratch_dir("hedverif-c16-")
     stats = {"disagreements": 0, "finding_trees": 0, "in_scope": 0, "exn": 0}
     try:
-        excl0 = None
-        cases = [{"base": base, "idx": i, "tree": t, "cfw": rng.random() < 0.6, "sub": i < n_sub}
-                 for i, t in enumerate(trees)]
+        excl = EXCLUDED_NAMES
+        specs = [spec_dataset(t, excl) for t in trees]
+        cases = []
+        for i, (t, sp) in enumerate(zip(trees, specs)):
+            sc = spec_chains(sp)
+            cases.append({"base": base, "idx": i, "tree": t, "cfw": rng.random() < 0.6, "sub": i < n_sub, "fixed": FIXED,
+                          "chains_spec": None if sc is None else (sc[1], sc[2])})
         with Pool(min(int(C.JOBS), 16)) as pool:
-            first = pool.map(impl_one, cases, chunksize=8)
-            for r in first:
-                if "harness_exn" in r:
-                    res.violation("harness-error", None, r["harness_exn"], no_input=True)
-                    return stats, []
-            excl = first[0]["excl"]
-            if excl != EXCLUDED_NAMES:
-                res.violation("tie", None, f"BidsDataset default exclude_dirs changed: {excl} (Coq excl_default / "
-                              f"harness EXCLUDED_NAMES = {EXCLUDED_NAMES})", no_input=True)
-            if first[0]["types"] != ["events"]:
-                res.violation("tie", None, f"BidsDataset default tabular_types changed: {first[0]['types']}", no_input=True)
-            specs = [spec_dataset(t, excl) for t in trees]
-            models = [None] * len(trees)
-            if model_ok:
-                exe = C.build_driver("c16")
-                ins = [model_input(r, t, excl) for r, t in zip(first, trees)]
-                outs = C.run_driver(exe, [x[0] for x in ins])
-                models = [decode_model(o, x[1], x[2]) for o, x in zip(outs, ins)]
-            for c, sp, mo in zip(cases, specs, models):
-                sc = spec_chains(sp)
-                c["chains_spec"] = None if sc is None else (sc[1], sc[2])
-                c["chains_model"] = chains_of(mo) if mo and "sidecars" in mo else None
-                c["sub"] = False
-                c["idx"] += len(trees)
-            second = pool.map(impl_one, cases, chunksize=8)
+            first = pool.map(impl_one, cases, chunksize=4)
+        for r in first:
+            if "harness_exn" in r:
+                res.violation("harness-error", None, r["harness_exn"], no_input=True)
+                return stats, []
+        if first[0]["excl"] != EXCLUDED_NAMES:
+            res.violation("tie", None, f"BidsDataset default exclude_dirs changed: {first[0]['excl']} (Coq excl_default / "
+                          f"harness EXCLUDED_NAMES = {EXCLUDED_NAMES})", no_input=True)
+        if first[0]["types"] != ["events"]:
+            res.violation("tie", None, f"BidsDataset default tabular_types changed: {first[0]['types']}", no_input=True)
+        models = [None] * len(trees)
+        if model_ok:
+            exe = C.build_driver("c16")
+            ins = [model_input(r, t, excl) for r, t in zip(first, trees)]
+            outs = C.run_driver(exe, [x[0] for x in ins])
+            models = [decode_model(o, x[1], x[2]) for o, x in zip(outs, ins)]
         results = []
-        for c, t, r1, r2, sp, mo in zip(cases, trees, first, second, specs, models):
+        for c, t, r1, sp, mo in zip(cases, trees, first, specs, models):
             pub = {"tree": t, "cfw": c["cfw"]}
-            if "harness_exn" in r2:
-                res.violation("harness-error", None, r2["harness_exn"], no_input=True)
-                continue
             if "exn" in r1:
                 stats["exn"] += 1
-            # determinism of the implementation between the two passes (same tree)
-            for k in ("sidecars", "data", "issues", "exn"):
-                if r1.get(k) != r2.get(k):
-                    res.violation("harness-nondeterminism", pub, f"{k}: {r1.get(k)} vs {r2.get(k)}", no_input=True)
-            r1["expect"] = r2.get("expect", {})
             probe = C.Result(PROP)
             probe.known_ids = getattr(res, "known_ids", {})
             hasf = oracle(pub, r1, sp, probe)
@@ -735,10 +730,18 @@ def nontrivial(t, excl=EXCLUDED_NAMES):
     return any(f["chain"] and len(f["chain"]) >= 2 for f in sp["data"])
 
 
+LEGACY_F1 = {"property": "C16", "id": "C16-F1",
+             "what": "(repaired by the fix: commit; VERIF_C16_FIXED=0 on an unpatched tree) a data file gets the merged "
+                     "contents of the deepest applicable sidecar's own chain instead of the merge of its own chain"}
+
+
 def run(tier, seed, res, model_ok=True, proof_ok=True):
     rng = random.Random(seed)
+    if not FIXED:      # checking the constructor before the fix: its one finding class is accepted, as recorded
+        res.known_ids = dict(getattr(res, "known_ids", {}))
+        res.known_ids.setdefault("C16-F1", LEGACY_F1)
     check_isspace(res)
-    n = 420 if tier == "quick" else 2000
+    n = 240 if tier == "quick" else 1600
     if not proof_ok:
         n *= 3
     n = max(20, int(n * float(os.environ.get("VERIF_C16_SCALE", "1"))))   # self-test knob only
@@ -768,6 +771,7 @@ def run(tier, seed, res, model_ok=True, proof_ok=True):
         "exhaustive_family": f"{len(exh)} trees: one events file below root/sub-01{'/ses-01' if tier != 'quick' else ''}/eeg and, at each "
                              "level independently, no sidecar or one sidecar with any subset of the file's entities "
                              "(all placements enumerated)",
+        "fixed_semantics": bool(FIXED),
         "exhaustive": False,
     }
 
@@ -782,13 +786,11 @@ def replay(payload):
     rng = random.Random(0)
     base = C.scratch_dir("hedverif-c16-")
     try:
-        c = {"base": base, "idx": 0, "tree": case["tree"], "cfw": case.get("cfw", True), "sub": True}
-        r = impl_one(c)
-        sp = spec_dataset(case["tree"], r.get("excl", EXCLUDED_NAMES))
+        sp = spec_dataset(case["tree"], EXCLUDED_NAMES)
         sc = spec_chains(sp)
-        c.update({"idx": 1, "chains_spec": None if sc is None else (sc[1], sc[2]), "sub": False})
-        r2 = impl_one(c)
-        r["expect"] = r2.get("expect", {})
+        c = {"base": base, "idx": 0, "tree": case["tree"], "cfw": case.get("cfw", True), "sub": True, "fixed": FIXED,
+             "chains_spec": None if sc is None else (sc[1], sc[2])}
+        r = impl_one(c)
         oracle(case, r, sp, res)
     finally:
         shutil.rmtree(base, ignore_errors=True)
